@@ -12,12 +12,16 @@ EXTENDS Integers, Sequences, FiniteSets, TLC, Json
 
 CONSTANTS MaxArgs, Emit
 
-Callees == {"rec1", "rec2", "rec3", "recv1", "recv0", "vm2", "pm2", "jf", "sw"}
+Callees == {"rec1", "rec2", "rec3", "recv1", "recv0", "vm2", "pm2", "jf", "sw", "nilv"}
+\* nilv is not a call: a first stage that evaluates to no value (a nil global).  A reflected Go function refuses an
+\* invalid piped argument; a jet.Func receives it as an argument like any other (Arguments.IsSet says it is not set)
+Inv == "<invalid Value>"
+IsNoValue(c) == c = "nilv"
 \* sw is a user-supplied SafeWriter: it writes "{v}" for the piped value and each of its arguments, yields no value,
 \* is not a recorded call, and may only be the last stage
 IsWriter(c) == c = "sw"
 Arity(c)    == CASE c = "rec1" -> 1 [] c = "rec2" -> 2 [] c = "rec3" -> 3 [] c = "recv1" -> 1 [] c = "recv0" -> 0
-                 [] c = "vm2" -> 2 [] c = "pm2" -> 2 [] c = "jf" -> 0 [] c = "sw" -> 0
+                 [] c = "vm2" -> 2 [] c = "pm2" -> 2 [] c = "jf" -> 0 [] c = "sw" -> 0 [] c = "nilv" -> 0
 Variadic(c) == c \in {"recv1", "recv0", "jf", "sw"}          \* a jet.Func accepts any number of arguments
 Shapes == {"plain", "colon", "pipe", "pipecolon", "pipeparen", "slot", "slot2"}
 
@@ -50,11 +54,13 @@ ValidStage(first, c, shape, n, slot) ==
   /\ (shape \in {"slot", "slot2"} => (n >= 1 /\ slot \in 1..n)) /\ (shape \notin {"slot", "slot2"} => slot = 0)
   /\ (shape = "slot2" => n >= 2)
   /\ (IsWriter(c) => (shape \notin {"slot", "slot2"} /\ (first => n >= 1)))
+  /\ (IsNoValue(c) => (first /\ shape = "plain" /\ n = 0))
 
 Init == stages = <<>> /\ phase = "grow"
 AddStage(c, shape, n, slot) ==
   /\ phase = "grow" /\ Len(stages) < 3
   /\ ValidStage(stages = <<>>, c, shape, n, slot)
+  /\ ~(stages # <<>> /\ IsNoValue(stages[Len(stages)].c) /\ IsWriter(c))
   /\ stages' = Append(stages, Stage(c, shape, n, slot))
   /\ UNCHANGED phase
 Finish == phase = "grow" /\ stages # <<>> /\ phase' = "done" /\ UNCHANGED stages
@@ -67,12 +73,14 @@ Braced(vs) == IF vs = <<>> THEN "" ELSE "{" \o Head(vs) \o "}" \o Braced(Tail(vs
 \* Run(stages, piped value, call log, bytes written by writer stages, previous stage was a writer)
 RECURSIVE Run(_, _, _, _, _)
 Run(ss, piped, log, wr, wasw) ==
-  IF ss = <<>> THEN [ok |-> TRUE, class |-> "", log |-> log, value |-> wr \o (IF wasw THEN "" ELSE piped)]
+  IF ss = <<>> THEN [ok |-> TRUE, class |-> "", log |-> log, value |-> wr \o (IF wasw \/ piped = Inv THEN "" ELSE piped)]
   ELSE LET s == Head(ss)
            av == ArgVector(s.shape, s.n, s.slot, piped)
        IN IF s.shape = "slot2" THEN [ok |-> FALSE, class |-> "twoslots", log |-> <<>>, value |-> ""]   \* rejected when parsing
           ELSE IF wasw THEN [ok |-> FALSE, class |-> "writerlast", log |-> log, value |-> ""]          \* a SafeWriter stage may only come last
           ELSE IF IsWriter(s.c) THEN Run(Tail(ss), "", log, wr \o Braced(av), TRUE)
+          ELSE IF IsNoValue(s.c) THEN Run(Tail(ss), Inv, log, wr, FALSE)
+          ELSE IF s.c # "jf" /\ (\E i \in 1..Len(av) : av[i] = Inv) THEN [ok |-> FALSE, class |-> "arg-invalid", log |-> log, value |-> ""]
           ELSE IF ~CountOK(s.c, Len(av)) THEN [ok |-> FALSE, class |-> "argcount", log |-> log, value |-> ""]
           ELSE Run(Tail(ss), ResultOf(s.c, av), Append(log, [c |-> s.c, args |-> av]), wr, FALSE)
 
@@ -83,7 +91,7 @@ Outcome == IF \E i \in 1..Len(stages) : stages[i].shape = "slot2"
 Done == phase = "done"
 
 \* every stage is called exactly once, in order, when the pipeline succeeds
-Recorded == SelectSeq(stages, LAMBDA st : ~IsWriter(st.c))
+Recorded == SelectSeq(stages, LAMBDA st : ~IsWriter(st.c) /\ ~IsNoValue(st.c))
 EachStageOnce == Done /\ Outcome.ok => /\ Len(Outcome.log) = Len(Recorded)
                                         /\ \A i \in 1..Len(Recorded) : Outcome.log[i].c = Recorded[i].c
 \* a writer anywhere but in the last stage is an error
@@ -144,7 +152,7 @@ Builtins == <<
   [name |-> "array",     go |-> "sliceliteral",      args |-> <<"\"a\"", "iv7">>] >>
 
 \* three-stage pipelines only over the short forms (keeps the enumeration in the thousands)
-Bound == Len(stages) <= 2 \/ \A i \in 1..Len(stages) : stages[i].n <= 1 /\ stages[i].c \in {"rec1", "rec2", "jf", "vm2", "sw"}
+Bound == Len(stages) <= 2 \/ \A i \in 1..Len(stages) : stages[i].n <= 1 /\ stages[i].c \in {"rec1", "rec2", "jf", "vm2", "sw", "nilv"}
 
 EmitVec == /\ (Emit /\ Done) => PrintT(<<"VEC", ToJson([stages |-> stages, outcome |-> Outcome])>>)
            /\ (Emit /\ stages = <<>> /\ phase = "grow") => PrintT(<<"VEC", ToJson([conv |-> ConvTable, builtins |-> Builtins])>>)
